@@ -223,6 +223,15 @@ func (w *World) TakeOut() map[string]int {
 
 // failRequestor stands in for every pull-style requestor (block fetch, state
 // sync, LFB from sharders): the simulated network answers nothing.
+// OutKinds returns and clears the captured outgoing messages as a sorted list of
+// message kinds. Multiplicity is left out on purpose: the node may start the
+// same follow-up twice from two of its own goroutines (e.g. two concurrent
+// moveToNextRoundNotAhead both sending the VRF share), which is Go-scheduler
+// dependent and not part of the outcome the checks look at.
+func (w *World) OutKinds() []string {
+	return sortedKeys(w.TakeOut())
+}
+
 func failRequestor(params *url.Values, handler datastore.JSONEntityReqResponderF) node.SendHandler {
 	return func(ctx context.Context, n *node.Node) bool { return false }
 }
